@@ -647,6 +647,9 @@ func (d *bnet) offsetOfNext(head *types.WorkObject, want int) int {
 func (d *bnet) note(mm *hnet.Mined, off int) {
 	m, b := d.m, mm.Blocks[2]
 	d.blocks++
+	if os.Getenv("VERIF_C07_DEBUG") != "" {
+		fmt.Fprintf(os.Stderr, "DBG %s p=%d net=%d pat=%s block %v order %d pt %d off %+d kinds %v\n", d.spec.name, d.p, d.k, d.pat, mm.Number, mm.Order, b.PrimeTerminusNumber(), off, d.kinds(b, mm.Order))
+	}
 	m.Eval("own-block-accepted-and-followed:"+d.spec.name, b.Hash().Hex())
 	if off < -2 || off > 3 {
 		return
